@@ -25,5 +25,6 @@ func checkC16(c *Ctx, r *Report) {
 	r.Floor("G10", 8)
 	r.Floor("G8", 10)
 	ruleG10(c, r, scope)
+	requireFixture(r, "G10", "walkWrong", func(fc *Ctx, s *Report) { ruleG10(fc, s, fixtureAllFuncs(fc)) })
 	ruleG5(c, r, scope, nil)
 }
